@@ -1,5 +1,6 @@
 SPECIFICATION GSpec
 CONSTANTS N = 2
+          DOUBLE = FALSE
 CHECK_DEADLOCK FALSE
 INVARIANT Emit
 INVARIANT IdsUnique
